@@ -11,7 +11,8 @@ generated model.  Result type `flow` (model/ConstraintsBase.v): FNext / FRaise e
    self._semantic_id = semantic_id                         the store (FNext; the tie run checks the stored value)
    for set_ in self.parent.namespace_element_sets:
        if set_.contains_id("semantic_id", semantic_id): raise KeyError(...)     -> fwhen dup (FRaise EKey)
-   the re-indexing statements (pinned text, namespace mechanics of property C01)                -> FNext
+   the re-indexing statements (pinned text, two accepted versions: plain discard/re-add, and the one that remembers
+   the position in an ordered set and restores the old state when the re-add is refused; C01's mechanics)   -> FNext
 C ::= C and C | C or C | not C | semantic_id is [not] None | semantic_id | self.parent is [not] None | self.parent
     | len(self.supplemental_semantic_id) <op> <int> | self.supplemental_semantic_id
 parameters of the generated function: sem_none (the new value is None), n_supp (len of the supplemental list),
@@ -26,6 +27,17 @@ PINNED_IGNORABLE = {
     "for set_ in self.parent.namespace_element_sets:\n    if self in set_:\n        set_add_list.append(set_)\n        set_.discard(self)",
     "for set_ in set_add_list:\n    set_.add(self)",
     "self._semantic_id = semantic_id",
+    # the re-indexing with position memory and restore-on-refusal (the re-add of a contained element can be refused by
+    # the parent's hooks, e.g. AASd-114 of a SubmodelElementList - that refusal depends on the siblings and belongs to
+    # the element-list rules / property C01; the translated model assumes the re-add succeeds)
+    "set_add_list: List[Tuple[NamespaceSet, Optional[int]]] = []",
+    "for set_ in self.parent.namespace_element_sets:\n    if self in set_:\n        set_add_list.append((set_, set_.index(self) "
+    "if isinstance(set_, OrderedNamespaceSet) else None))\n        set_.discard(self)",
+    "old_semantic_id = self._semantic_id",
+    "try:\n    for set_, position in set_add_list:\n        if position is None:\n            set_.add(self)\n        else:\n"
+    "            set_.insert(position, self)\nexcept Exception:\n    self._semantic_id = old_semantic_id\n"
+    "    for set_, position in set_add_list:\n        if self not in set_:\n            if position is None:\n"
+    "                set_.add(self)\n            else:\n                set_.insert(position, self)\n    raise",
 }
 DUP_LOOP = ("for set_ in self.parent.namespace_element_sets:\n    if set_.contains_id('semantic_id', semantic_id):\n"
             "        raise KeyError(")
